@@ -173,8 +173,34 @@ func c01Reuse(c *Ctx, n int) {
 			}
 		}
 		res.Case(fmt.Sprintf("R3|%d|%s|%d", a, shared, len(srcs)), true, cs3)
+
+		// (iv) a field of interface type whose default holds a function (a hook) between ordinary leaves: whatever the
+		// library makes of that field, the leaves around it get THEIR values - nothing shifts into a neighbour
+		cs4 := map[string]any{"stream": "an interface-typed field holding a func between ordinary leaves", "a": a, "b": b}
+		d5 := &c01HCfg{Name: "dflt", Hook: func() {}, Port: a, Tail: "tail-default", Last: 1}
+		var dh *dials.Dials[c01HCfg]
+		var err5 error
+		if pn := catch(func() {
+			dh, err5 = dials.Config(ctx, d5, &static.StringSource{Data: fmt.Sprintf(`{"Port":%d,"Tail":"from-source"}`, b), Decoder: &jsondec.Decoder{}})
+		}); pn != "" {
+			res.Add(Finding{Kind: "violation", What: "Config panicked while stacking (a value was shifted into a field of another type): " + pn, Case: cs4})
+		} else if err5 != nil {
+			res.Add(Finding{Kind: "violation", What: "Config failed on a config with an interface-typed hook field: " + err5.Error(), Case: cs4})
+		} else if v := dh.View(); v.Name != "dflt" || v.Port != b || v.Tail != "from-source" || v.Last != 1 {
+			res.Add(Finding{Kind: "violation", What: "a leaf next to a skipped / opaque field did not get its own value (a value shifted into a neighbouring field)", Case: cs4,
+				Expected: fmt.Sprintf("{Name:dflt Port:%d Tail:from-source Last:1}", b), Observed: fmt.Sprintf("{Name:%s Port:%d Tail:%s Last:%d}", v.Name, v.Port, v.Tail, v.Last)})
+		}
+		res.Case(fmt.Sprintf("R4|%d|%d", a, b), true, cs4)
 		cancel()
 	}
+}
+
+type c01HCfg struct {
+	Name string
+	Hook interface{}
+	Port int
+	Tail string
+	Last int
 }
 
 type c01MCfg struct {
